@@ -56,7 +56,7 @@ OTHER_CMDS = {
     "rs": ["nesting", "srp", "magic-numbers", "unwrap-abuse", "clone-abuse", "blocking-async"],
 }
 OTHER_CMDS["js"] = OTHER_CMDS["ts"]
-FAM_CMD = dict(seeds.FAMILY_CMD, srploc="srp", decoy="magic-numbers", cloneuse="clone-abuse", filler=None)
+FAM_CMD = dict(seeds.FAMILY_CMD, srploc="srp", decoy="magic-numbers", exempt="magic-numbers", cloneuse="clone-abuse", filler=None)
 RUN_LEN = 5  # statements in a planted duplicate run (seeds.dry_set default)
 REF = re.compile(r"([\w./-]+\.(?:py|ts|js|rs)):(\d+)(?:-(\d+))?")
 
@@ -65,7 +65,7 @@ REF = re.compile(r"([\w./-]+\.(?:py|ts|js|rs)):(\d+)(?:-(\d+))?")
 
 
 def families(lang):
-    return seeds.families(lang) + ["srploc", "decoy"] + (["cloneuse", "cloneuse"] if lang == "rs" else [])
+    return seeds.families(lang) + ["srploc", "decoy", "exempt"] + (["cloneuse", "cloneuse"] if lang == "rs" else [])
 
 
 def build(case):
@@ -85,6 +85,8 @@ def build(case):
                 cfg["srp"] = {"max_loc": max(1, loc + part.get("d", 0))}
             elif fam == "decoy":
                 sn = extra.decoy(lang, u)
+            elif fam == "exempt":
+                sn = extra.exempt(lang, u)
             elif fam == "cloneuse":
                 sn = extra.cloneuse(lang, u)
             elif fam == "filler":
